@@ -1,6 +1,35 @@
 package main
 
 func init() {
+	// (round 4, seeded C17-N) the CONSTRUCTION of the cookie handler: NewCookieHandler, its functional options and the securecookie.New
+	// call site. `securecookie.New` is the hand-written `Hand.securecookieNew` (holds exactly the byte strings it is handed); whatever
+	// the library does to the keys before that call (a helper applied to them) is part of the regenerated definition or UNSUPPORTED.
+	copt := func(name, param string) FuncSpec {
+		f := FuncSpec{File: "pkg/http/cookie.go", Name: name, Lean: name, Closures: true, OptionClosures: true, PlainUpdate: true,
+			Ret: RetVal, RetType: "CookieHandlerOpt", Mutators: []string{"c.securecookie.MaxAge"}, NestedUpdate: true}
+		if param != "" {
+			f.Params = []string{param}
+		}
+		return f
+	}
+	extraGroups = append(extraGroups, Group{
+		Out:     "RPCookieNew.lean",
+		Imports: []string{"OidcModel.Model.RP", "OidcModel.GoX"},
+		Opens:   []string{"Go", "Hand", "Const"},
+		Funcs: []FuncSpec{
+			copt("WithUnsecure", ""),
+			copt("WithSameSite", "(sameSite : Int)"),
+			copt("WithMaxAge", "(maxAge : Int)"),
+			copt("WithDomain", "(domain : String)"),
+			copt("WithPath", "(path : String)"),
+			{File: "pkg/http/cookie.go", Name: "NewCookieHandler", Lean: "NewCookieHandler", PlainUpdate: true, Closures: true,
+				LoopStyle: "state", OutCallState: true, LocalOut: map[string]OutParam{"opt": {0, true}}, Imperative: true,
+				StructLits: map[string]StructLit{"CookieHandler{}": {Lean: "CookieHandler", Keep: []string{"securecookie", "secureOnly", "sameSite", "maxAge", "domain", "path"}}},
+				Params:     []string{"(hashKey encryptKey : CookieKey)", "(opts : List CookieHandlerOpt)"},
+				Ret:        RetVal, RetType: "CookieHandler",
+				Rename: map[string]string{"opt()": "opt", "securecookie.New()": "Hand.securecookieNew", "http.SameSiteLaxMode": "Http.SameSiteLaxMode"}},
+		},
+	})
 	extraGroups = append(extraGroups, []Group{
 		{Out: "RPTables.lean", Imports: []string{"OidcModel.Model.OP"}, Opens: []string{"Const"}, Extra: rpHandlerTables},
 		{
@@ -32,12 +61,12 @@ func init() {
 						"uuid.New()": "rnd", "base64.RawURLEncoding.EncodeToString()": "Hand.rawURLEncode"}},
 				{File: "pkg/client/rp/relying_party.go", Name: "AuthURLHandler", Lean: "AuthURLHandler", Writer: "w",
 					Params: []string{"(stateFn : String)", "(rnd : String)", "(rp : RP)", "(urlParam : List UrlOpt)", "(w : World)", "(r : HttpReq)"},
-					Ret:    RetHandler, RetType: "World",
+					Ret:    RetHandler, RetType: "World", AliasByFact: true,
 					Rename: map[string]string{"stateFn()": "stateFn", "GenerateAndStoreCodeChallenge()": "GenerateAndStoreCodeChallenge now rnd",
 						"AuthURL()": "Hand.AuthURL now"}},
 				{File: "pkg/client/rp/relying_party.go", Name: "CodeExchangeHandler", Lean: "CodeExchangeHandler", Writer: "w",
 					Params: []string{"(rp : RP)", "(urlParam : List UrlOpt)", "(w : World)", "(r : HttpReq)"},
-					Ret:    RetHandler, RetType: "World",
+					Ret:    RetHandler, RetType: "World", AliasByFact: true,
 					Effectful: []string{"CodeExchange"},
 					Rename: map[string]string{"rp.CookieHandler().CheckCookie()": "CheckCookie now (Go.getOpt (rp).CookieHandler)",
 						"rp.CookieHandler().DeleteCookie()": "DeleteCookie now (Go.getOpt (rp).CookieHandler)",
